@@ -258,7 +258,7 @@ pub fn decode_est(data: &[u8]) -> EstCase {
                     _ => BlOp::Clear,
                 });
             }
-            EstCase::Bloom(BloomCase { cap, rate_milli, hashes, ops, fp_seed: 0 })
+            EstCase::Bloom(BloomCase { cap, rate_milli, hashes, ops, fp_seed: 0, fp_aligned: b(u) % 2 == 0 })
         }
         _ => {
             let num_counters = [4usize, 8, 16, 64, 256, 1000][(b(u) % 6) as usize];
